@@ -485,7 +485,8 @@ def extract_ffail(trace):
     {'sigs': ['w:4', …], 'jobs': [4, …], 'ev': [token, …]} per period between two resets of the exception flag in which somebody wrote
     the job-id slot.  Job ids are shifted so that MAIN_PROCESS, INIT_FUNC, EXIT_FUNC are 0, 1, 2.  Tokens: L:i:b (party i looked at the
     flag and saw b), W:i (wrote the slot), F:i (raised the flag), Q:i (queued its failure), P:i / A:i (decided to store it itself /
-    under every other job), H:i (the results handler took up i's queued failure), S:i:j (i's failure was written under job j),
+    under every other job), H:i (the results handler took up i's queued failure), S:i:j (i's failure was written under job j), D:i:j (the
+    attempt to write it there had no effect),
     MS / MR:j / MX:i (the caller saw the flag / read job id j / fetched the exception produced by i)."""
     def mj(j):
         return {-1: 0, -2: 1, -3: 2}.get(j, j + 3)
@@ -502,7 +503,7 @@ def extract_ffail(trace):
 
     def new():
         return {'sigs': [], 'jobs': set(), 'toks': [], 'last_look': {}, 'since_look': {}, 'cur': {}, 'stored': [], 'queued': {}, 'hand': None, 'main_look': None,
-                'hgroup': None, 'hwho': None}
+                'hgroup': None, 'hwho': None, 'trying': {}}
     ep = new()
 
     def fmt(tok):
@@ -592,8 +593,10 @@ def extract_ffail(trace):
                 ep['hand'] = None
             ep['hgroup'] = None
             ep['hwho'] = None
-        elif kind == 'exc.set':
+        elif kind == 'exc.try':
+            # an attempt to put a failure under a job id begins; whose failure it is
             job, obj = rec[4], rec[5]
+            holder = None
             if role == 'results_handler':
                 if ep['hgroup'] != obj:
                     ep['hgroup'] = obj
@@ -602,8 +605,7 @@ def extract_ffail(trace):
                     if lst:
                         ep['hwho'] = {'i': lst.pop(0)}
                         emit('H:%d' % ep['hwho']['i'])
-                if ep['hwho'] is not None:
-                    store(ep['hwho'], job, obj)
+                holder = ep['hwho']
             else:
                 g = ep['cur'].get(role)
                 if g is not None and g['flagged']:
@@ -611,14 +613,14 @@ def extract_ffail(trace):
                         if not g['all']:
                             g['all'] = True
                             emit('A:%d' % g['i'])
-                        store(g['holder'], job, obj)
+                        holder = g['holder']
                     elif not g['published']:
                         g['published'] = True
                         g['obj'] = obj
                         emit('P:%d' % g['i'])
-                        store(g['holder'], job, obj)
+                        holder = g['holder']
                     elif g['obj'] == obj:
-                        store(g['holder'], job, obj)
+                        holder = g['holder']
                 elif kind_of(role) == 'd':
                     # before it writes the slot (if it does: in apply mode it only fails the job) the death handler stores its error
                     # (the last such store before the write is the one that belongs to the report)
@@ -626,7 +628,21 @@ def extract_ffail(trace):
                     holder = {'i': None}
                     pre.append((pos, job, obj, holder))
                     emit(('P', holder))
-                    store(holder, job, obj)
+            ep['trying'][role] = {'job': job, 'obj': obj, 'holder': holder, 'stored': False}
+            if holder is not None and job >= 0:
+                ep['jobs'].add(mj(job))
+        elif kind == 'exc.set':
+            # … the assignment a reader can see
+            t = ep['trying'].get(role)
+            if t is not None and t['holder'] is not None and t['obj'] == rec[5] and t['job'] == rec[4]:
+                t['stored'] = True
+                ep['stored'].append((pos, rec[5], t['holder']))
+                emit(('S', t['holder'], mj(rec[4])))
+        elif kind == 'exc.try-end':
+            # … or it ended without one: it had no effect
+            t = ep['trying'].pop(role, None)
+            if t is not None and t['holder'] is not None and not t['stored']:
+                emit(('D', t['holder'], mj(t['job'])))
         elif kind == 'value.get' and rec[4] == 'exception_job_id' and role == 'main':
             emit('MS', at=ep['main_look'] if ep['main_look'] is not None else pos)
             emit('MR:%d' % mj(rec[5]))
@@ -636,7 +652,7 @@ def extract_ffail(trace):
     # tokens of parties that never became known (a death handler that only failed an apply job) say 999: they are dropped, together
     # with nothing else — the model then has no such party either
     for e in episodes:
-        e['ev'] = [t for t in e['ev'] if not ((t.startswith('P:') or t.startswith('S:')) and t.split(':')[1] == '999')]
+        e['ev'] = [t for t in e['ev'] if not ((t.startswith('P:') or t.startswith('S:') or t.startswith('D:')) and t.split(':')[1] == '999')]
     return episodes
 
 
